@@ -120,7 +120,7 @@ def structure_chunk(chunk):
 def select(ctx, states, n_quick):
     rng = random.Random(ctx.seed)
     if not ctx.quick:
-        return states
+        n_quick = 12000          # thorough: the end-to-end stage is bounded too (every program goes through stage 1)
     # stratify: every case the implementation model marks as deviating (bounded), nested ones, then the rest
     dev = [s for s in states if s["info"]["why"]]
     acc = [s for s in states if not s["refused"] and not s["info"]["why"]]
@@ -193,7 +193,7 @@ def run(ctx: core.Ctx):
     if ctx.quick:
         states = scriptgen.tlc_programs(ctx, ["Script_n3.cfg", "Script_loops4t.cfg", "Script_ops3.cfg"], "Script_sim.cfg", sim_num=8000, sim_depth=16)
     else:
-        states = scriptgen.tlc_programs(ctx, ["Script_n4.cfg", "Script_loops4t.cfg", "Script_iffor4t.cfg", "Script_ops3.cfg"], "Script_sim.cfg", sim_num=60000, sim_depth=18)
+        states = scriptgen.tlc_programs(ctx, ["Script_n3.cfg", "Script_loops4t.cfg", "Script_iffor4t.cfg", "Script_ops3.cfg", "Script_n4.cfg"], "Script_sim.cfg", sim_num=30000, sim_depth=18)
     vac = core.run_tlc("Script", "Script_vacuity.cfg", timeout=900)
     if vac.ok:
         raise core.MachineryError("vacuity: no accepted program with an if inside a for loop is reachable")
@@ -214,7 +214,7 @@ def run(ctx: core.Ctx):
                 print(f"SPEC-MISMATCH C01 structure: model {want} impl {real}\n{scriptgen.program_src(s['prog'], list(s['ret']))}")
     ctx.set("structure_checked", len(cand))
     ctx.add("structure_disagreements", 0)
-    chosen = suspects[:400] + select(ctx, states, 1100)
+    chosen = suspects[:400 if ctx.quick else 4000] + select(ctx, states, 1100)
     args = [(i, s["prog"], list(s["ret"]), (i % len(scriptgen.NAME_SCHEMES)) if i % 4 == 3 else 0,
              [r["py"][0] == "ok" for r in s["res"]]) for i, s in enumerate(chosen)]
     results = core.pmap_safe(run_program, args, timeout=90)
